@@ -295,6 +295,54 @@ func (g *engine) descriptorSweep(rng *lib.Rng, reps int) {
 	}
 }
 
+// structuralSweep: AND / OR / NOT / COALESCE / CAST over every combination of operand typings (what decides their
+// static type is only whether operands admit NULL / which alternatives they have).
+func (g *engine) structuralSweep(rng *lib.Rng) {
+	B, N := octosql.Boolean, octosql.Null
+	bn := octosql.TypeSum(B, N)
+	operandTypes := []octosql.Type{B, bn, octosql.TypeSum(bn, octosql.Int), octosql.TypeSum(B, octosql.Int), octosql.TypeSum(bn, octosql.String)}
+	operand := func(k, col int, types *[]octosql.Type) *lx {
+		switch k {
+		case len(operandTypes):
+			return c(octosql.NewNull())
+		case len(operandTypes) + 1:
+			return c(octosql.NewBoolean(true))
+		}
+		*types = append(*types, operandTypes[k])
+		return v(len(*types) - 1)
+	}
+	for a := 0; a < len(operandTypes)+2; a++ {
+		for b := 0; b < len(operandTypes)+2; b++ {
+			for _, op := range []string{"and", "or"} {
+				var types []octosql.Type
+				l := operand(a, 0, &types)
+				r := operand(b, 1, &types)
+				g.addCase(rng.Fork(), types, &lx{op: op, args: []*lx{l, r}}, "structural_"+op, 6)
+			}
+		}
+		if a < len(operandTypes) {
+			var types []octosql.Type
+			g.addCase(rng.Fork(), types0(operandTypes[a]), call("not", v(0)), "structural_not", 6)
+			_ = types
+		}
+	}
+	// COALESCE over pairs / triples of column typings, CAST of every union column to every scalar kind
+	cols := []octosql.Type{octosql.Int, octosql.TypeSum(octosql.Int, N), octosql.TypeSum(octosql.String, N), octosql.String,
+		octosql.TypeSum(octosql.Int, octosql.String), octosql.TypeSum(octosql.TypeSum(octosql.Int, octosql.Float), N), octosql.TypeSum(octosql.Duration, N)}
+	for i := range cols {
+		g.addCase(rng.Fork(), []octosql.Type{cols[i]}, &lx{op: "coalesce", args: []*lx{v(0)}}, "structural_coalesce", 4)
+		for j := range cols {
+			g.addCase(rng.Fork(), []octosql.Type{cols[i], cols[j]}, &lx{op: "coalesce", args: []*lx{v(0), v(1)}}, "structural_coalesce", 4)
+			g.addCase(rng.Fork(), []octosql.Type{cols[i], cols[j]}, &lx{op: "coalesce", args: []*lx{v(0), v(1), c(octosql.NewInt(0))}}, "structural_coalesce", 4)
+		}
+		for k := 1; k <= 6; k++ {
+			g.addCase(rng.Fork(), []octosql.Type{cols[i]}, &lx{op: "cast", id: octosql.TypeID(k), args: []*lx{v(0)}}, "structural_cast", 4)
+		}
+	}
+}
+
+func types0(t octosql.Type) []octosql.Type { return []octosql.Type{t} }
+
 // ---- random expressions ----
 var columnPool = []octosql.Type{
 	octosql.Int, octosql.TypeSum(octosql.Int, octosql.Null), octosql.TypeSum(octosql.Float, octosql.Null), octosql.Boolean,
@@ -485,7 +533,8 @@ func main() {
 		reps = 6
 	}
 	g.descriptorSweep(rng.Fork(), reps)
-	n := f.Cases(500, 6000)
+	g.structuralSweep(rng.Fork())
+	n := f.Cases(400, 6000)
 	for i := 0; i < n; i++ {
 		r := rng.Fork()
 		ncols := 2 + r.Intn(3)
